@@ -149,6 +149,9 @@ def gen_caption(rng, start, span_layouts=False):
                 if rng.random() < 0.25:
                     # a span that also refers to a style class (the class key first, as the readers build it)
                     style = dict({"class": "quote"}, **style)
+                if rng.random() < 0.2:
+                    # ... or names a font family of several words (it is written next to the marking, in one attribute)
+                    style = dict({"font-family": "Courier New"}, **style)
                 lay = rng.choice(lays) if (span_layouts and rng.random() < 0.6) else None
                 nodes.append(ST(True, dict(style), lay))
                 for j in range(span_words):
@@ -360,6 +363,23 @@ def bounded(ctx, b):
             marked = "".join(ch for fl, _ in got for ch, f in fl if f and f[0])
             return all(okk for _, okk in got) and marked == "inside", {"cues": len(got), "italic_characters": marked, "expected": "inside", "doc": out[-300:]}
         b.guard(("span-opens-with-breaks", nbreaks, tuple(style)), after_break, sample={"breaks_after_the_opening_style_node": nbreaks, "style": style})
+    # marking that comes from a style CLASS whose name has capital letters (DFXP xml:id="italicStyle"): it survives the
+    # way through SAMI (whose style sheet is case-insensitive) and is written as tags by WebVTT
+    cls_doc = ('<?xml version="1.0" encoding="utf-8"?><tt xml:lang="en" xmlns="http://www.w3.org/ns/ttml" xmlns:tts="http://www.w3.org/ns/ttml#styling">'
+               '<head><styling><style xml:id="italicStyle" tts:fontStyle="italic"/><style xml:id="Shout" tts:fontWeight="bold" tts:fontStyle="italic"/></styling></head>'
+               '<body><div><p begin="00:00:01.000" end="00:00:02.000">the <span style="italicStyle">brown fox</span> and the <span style="Shout">lazy</span> dog</p></div></body></tt>')
+
+    def by_class():
+        import warnings
+        warnings.filterwarnings("ignore")
+        cs0 = shared(DFXPReader).read(cls_doc)
+        direct = "".join(ch for fl, _ in webvtt_flags(shared(WebVTTWriter).write(cs0)) for ch, f in fl if f and f[0])
+        via_sami = shared(SAMIReader).read(shared(SAMIWriter).write(cs0))
+        after = "".join(ch for fl, _ in webvtt_flags(shared(WebVTTWriter).write(via_sami)) for ch, f in fl if f and f[0])
+        twice = shared(SAMIReader).read(shared(SAMIWriter).write(via_sami))
+        again = "".join(ch for fl, _ in webvtt_flags(shared(WebVTTWriter).write(twice)) for ch, f in fl if f and f[0])
+        return direct == after == again == "brownfoxlazy", {"italic_characters_from_dfxp": direct, "after_sami": after, "after_sami_twice": again, "expected": "brownfoxlazy"}
+    b.guard(("class-with-capitals",), by_class, sample={"classes": ["italicStyle", "Shout"], "path": "dfxp -> (sami ->)* webvtt"})
     # a caption styled as a WHOLE (italic paragraph) whose text lies in two layouts: every cue written for it carries the
     # style, with its own balanced pair of tags
     for combo in [("plain_a", "plain_b"), ("plain_b", "plain_a", "plain_b"), ("plain_a", "bold_b")]:
